@@ -1078,16 +1078,24 @@ def _nodelist_to_slot_render_func(
             index_of_last_component_layer = get_index(
                 ctx.dicts, lambda d: d.get(_COMPONENT_CONTEXT_KEY) == slot_component_id
             )
-        if index_of_last_component_layer is None:
-            index_of_last_component_layer = get_last_index(ctx.dicts, lambda d: _COMPONENT_CONTEXT_KEY in d)
-        if index_of_last_component_layer is None:
-            index_of_last_component_layer = 0
+        if index_of_last_component_layer is None and slot_component_id is not None:
+            # The component that owns the slot is not part of this context at all. That is the case when
+            # the fill is rendered with the context it was DEFINED in ("isolated" context behavior).
+            # All variables in it are "outer" variables of the place where the fill was written, and
+            # the variables captured around the `{% fill %}` tag are the innermost scope. So they go
+            # on top, just below the layer with the slot data / slot default aliases.
+            index_of_last_component_layer = max(len(ctx.dicts) - 1, 0)
+        else:
+            if index_of_last_component_layer is None:
+                index_of_last_component_layer = get_last_index(ctx.dicts, lambda d: _COMPONENT_CONTEXT_KEY in d)
+            if index_of_last_component_layer is None:
+                index_of_last_component_layer = 0
 
-        # TODO: Currently there's one more layer before the `_COMPONENT_CONTEXT_KEY` layer, which is
-        #       pushed in `_prepare_template()` in `component.py`.
-        #       That layer should be removed when `Component.get_template()` is removed, after which
-        #       the following line can be removed.
-        index_of_last_component_layer -= 1
+            # TODO: Currently there's one more layer before the `_COMPONENT_CONTEXT_KEY` layer, which is
+            #       pushed in `_prepare_template()` in `component.py`.
+            #       That layer should be removed when `Component.get_template()` is removed, after which
+            #       the following line can be removed.
+            index_of_last_component_layer -= 1
 
         # Insert the `extra_context` layer BEFORE the layer that defines the variables from get_context_data.
         # Thus, get_context_data will overshadow these on conflict.
